@@ -3,6 +3,7 @@ EXTENDS UKVFile, Json
 (* constants for the tiers *)
 KeysQ == {"k1", "k2", "kBig"}
 KeysT == {"k1", "k2", "kBig", "k255", "kBin"}
+KeysB == {"k1", "k255", "kBin"}
 KLen  == [k \in KeysT |-> CASE k = "k1" -> 2 [] k = "k2" -> 2 [] k = "kBig" -> 256 [] k = "k255" -> 255 [] k = "kBin" -> 4]
 ValsQ == {"vE", "v1"}
 ValsT == {"vE", "v1", "v70k"}
